@@ -415,6 +415,17 @@ impl HalfConnection {
                         continue;
                     }
 
+                    if entry.fragment_ref.fragment_id == 0 && packet_ref.is_stale(flush_id) {
+                        // This TimeSensitive packet was taken from the send queue, but step() was
+                        // called again before its first fragment could be sent. Discard it, as if
+                        // it were still in the send queue.
+                        drop(packet_ref);
+                        let size = packet_rc.borrow_mut().discard();
+                        self.packet_sender.notify_discarded(size);
+                        self.pending_queue.pop_front();
+                        continue;
+                    }
+
                     match dfe.push(&packet_rc, entry.fragment_ref.fragment_id, entry.resend) {
                         // Being window-limited does not preclude further sends
                         Err(emit::DataPushError::WindowLimited) => return Ok(()),
